@@ -145,8 +145,21 @@ func (r *Resharing) Ready(readyPeers []peer.ID, excludedPeers []peer.ID) (bool, 
 	return len(readyPeers) == len(r.Host.Peerstore().Peers()), nil
 }
 
+// ValidCoordinators returns only peers that have a valid keyshare from the previous resharing
+// inside host peerstore: a relayer that leaves with this resharing takes no part in it and
+// must not be waited for as its coordinator.
 func (r *Resharing) ValidCoordinators() []peer.ID {
-	return r.key.Peers
+	peers := r.Host.Peerstore().Peers()
+	validCoordinators := make(peer.IDSlice, 0)
+	for _, keyPeer := range r.key.Peers {
+		for _, p := range peers {
+			if p == keyPeer {
+				validCoordinators = append(validCoordinators, keyPeer)
+				break
+			}
+		}
+	}
+	return validCoordinators
 }
 
 func (r *Resharing) StartParams(readyPeers []peer.ID) []byte {
